@@ -476,6 +476,55 @@ def rule_r8(prog, res) -> None:
     memo_rule(prog, res, "C15.R8", lambda f: f.module.name.startswith(("yaw.cosmology", "yaw.config", "yaw.binning")), "bin edges computed for one cosmology are returned for another")
 
 
+def rule_r9(prog, res) -> None:
+    """type unions that are used at run time are made of classes: `isinstance(x, get_args(Alias))` with an alias such
+    as Union[A, "B"] hands the string forward reference to isinstance, which raises TypeError for every object that is
+    not an A — a valid instance of B (e.g. a custom cosmology) can then not be configured at all"""
+    n = 0
+    for fi in prog.funcs:
+        for c in calls_in(fi):
+            if not (isinstance(c.func, ast.Name) and c.func.id in ("isinstance", "issubclass") and len(c.args) == 2):
+                continue
+            t = c.args[1]
+            if isinstance(t, ast.Name):
+                vals = [v for v in all_def_values(fi.node, t.id) if v is not None]
+                t = vals[0] if len(vals) == 1 else t
+            if not (isinstance(t, ast.Call) and (dotted(t.func) or "").split(".")[-1] == "get_args" and t.args and isinstance(t.args[0], ast.Name)):
+                continue
+            n += 1
+            res.touch(fi)
+            alias = t.args[0].id
+            defs = [g for g in prog.lookup(fi.module, alias, fi.variant) if getattr(g, "kind", "") == "global" and g.value is not None]
+            if len(defs) != 1:
+                raise AnalysisError(f"C15.R9: the type alias {alias} used with get_args in {fi.short} could not be resolved")
+            members = []
+            v = defs[0].value
+            if isinstance(v, ast.Subscript) and (dotted(v.value) or "").split(".")[-1] in ("Union", "Optional"):
+                members = list(v.slice.elts) if isinstance(v.slice, ast.Tuple) else [v.slice]
+            else:
+                stack = [v]
+                while stack:
+                    x = stack.pop()
+                    if isinstance(x, ast.BinOp) and isinstance(x.op, ast.BitOr):
+                        stack += [x.left, x.right]
+                    else:
+                        members.append(x)
+            fwd = [m.value for m in members if isinstance(m, ast.Constant) and isinstance(m.value, str)]
+            if fwd:
+                res.violation(
+                    "C15.R9",
+                    fi,
+                    c,
+                    f"isinstance(…, get_args({alias})) with {alias} = {unparse(v)[:60]}: the member {fwd} is a string forward reference, so isinstance raises TypeError for every object that does not match an earlier "
+                    "member — a valid instance of that class is rejected (it cannot be used as the configured cosmology)",
+                    key_extra=f"forward-ref-in-runtime-union-{alias}",
+                )
+            else:
+                res.ok("C15.R9", res.site(fi, f"get_args({alias})"), f"{alias} = {unparse(v)[:50]} consists of classes only")
+    if n == 0:
+        res.ok("C15.R9", "no run-time type unions", "no isinstance(…, get_args(alias)) in the package", nontrivial=False)
+
+
 RULES = [
     ("C15.R1", rule_r1, QUICK),
     ("C15.R2", rule_r2, QUICK),
@@ -485,4 +534,5 @@ RULES = [
     ("C15.R6", rule_r6, QUICK),
     ("C15.R7", rule_r7, QUICK),
     ("C15.R8", rule_r8, QUICK),
+    ("C15.R9", rule_r9, QUICK),
 ]
